@@ -447,6 +447,8 @@ def run(chk, pid, n_sim=None, depth=None, init_units=(0, 1), every=1):
         stats['histories'] += 1
         stats['max_len'] = max(stats['max_len'], len(hist))
         stats['by_len'][len(hist)] = stats['by_len'].get(len(hist), 0) + 1
+        for h in hist:
+            stats.setdefault('steps_replayed', {})[h[0]] = stats.get('steps_replayed', {}).get(h[0], 0) + 1
         chk.case(('session', iu, json.dumps(hist)), nontrivial=len(hist) >= 2,
                  sample={'session': hist, 'init_unit': iu, 'spec_state': {'cols': st['cols'], 'rows': st['rows'], 'res': st['res']}}
                  if stats['histories'] % 4001 == 7 else None)
@@ -466,5 +468,9 @@ def run(chk, pid, n_sim=None, depth=None, init_units=(0, 1), every=1):
             wrong_rows = list(st['rows'][1:]) + [st['rows'][0]]
             chk.negative_control(bool(compare(W, o, st['cols'], wrong_rows)), 'session comparison accepts a permuted event order')
             neg = True
+    # vacuity guard: every kind of step of the specification was actually replayed
+    missing = [op for op in ATTR if not stats.get('steps_replayed', {}).get(op)]
+    if missing:
+        raise tlc.MachineryError('Session: steps never replayed: %r' % missing)
     chk.extra.setdefault('session', stats)
     return stats
